@@ -101,7 +101,8 @@ class EditRun:
             program = pl.program(self.rng, cfg)
         self.cfg = cfg
         self.program = program
-        base_opts = dict(cfg.get('base_opts') or {})
+        from .ops import dec_opts
+        base_opts = dec_opts(cfg.get('base_opts') or {})
         old = FST.set_options(**base_opts) if base_opts else {}
         ok_steps = 0
         try:
